@@ -32,6 +32,28 @@ ASSUMPTIONS = [
 PROPS = ["pa", "pb", "pc"]
 
 
+def make_class_chain(levels, tag):
+    """A chain of Scenic classes, base first; levels[i] = {prop: (deps, additive)}."""
+    from scenic.core.object_types import Constructible
+    from scenic.core.specifiers import PropertyDefault
+
+    base = Constructible
+    for li, table in enumerate(levels):
+        tbl = {}
+        for prop, (deps, additive) in table.items():
+            def mk(prop=prop, deps=tuple(deps), li=li):
+                def value(context):
+                    seen = tuple((d, getattr(context, d)) for d in deps)
+                    LOG.append((f"default.L{li}", prop, seen))
+                    return f"L{li}.{prop}" + "".join(f"[{d}={v}]" for d, v in seen)
+
+                return value
+
+            tbl[prop] = PropertyDefault(set(deps), {"additive"} if additive else set(), mk())
+        base = type(f"K{tag}L{li}", (base,), {"_scenic_properties": tbl})
+    return base
+
+
 def make_class(defaults, finals, tag):
     """A Scenic class (subclass of Constructible) with the given default table."""
     from scenic.core.object_types import Constructible
@@ -96,6 +118,25 @@ def oracle(struct, prios):
     """Declarative resolution per docs/reference/specifiers.rst.  Returns ('ok', values) or ('SpecifierError', None)."""
     specs = struct["specs"]
     defaults, finals = struct["defaults"], struct["finals"]
+    levels = struct.get("levels")
+    if levels:
+        # most derived class wins; an additive default concatenates the values of all levels (derived first)
+        # and needs the dependencies of all of them
+        defaults, dvalue = {}, {}
+        for p in PROPS:
+            defs = [(li, levels[li][p]) for li in reversed(range(len(levels))) if p in levels[li]]
+            if not defs:
+                continue
+            (li0, (deps0, add0)) = defs[0]
+            if add0:
+                alldeps = []
+                for _li, (dd, _a) in defs:
+                    alldeps += [d for d in dd if d not in alldeps]
+                defaults[p] = sorted(alldeps)
+                dvalue[p] = ("additive", [(li, list(dd)) for li, (dd, _a) in defs])
+            else:
+                defaults[p] = sorted(deps0)
+                dvalue[p] = ("plain", [(li0, list(deps0))])
     normal = [i for i, s in enumerate(specs) if not s.get("modifying")]
     mods = [i for i, s in enumerate(specs) if s.get("modifying")]
     for i in normal:
@@ -180,7 +221,12 @@ def oracle(struct, prios):
     for nd in order:
         seen = "".join(f"[{d}={values[d]}]" for d in deps_of(nd))
         if nd[0] == "d":
-            values[nd[1]] = f"default.{nd[1]}" + seen
+            if levels:
+                kind, parts = dvalue[nd[1]]
+                vals = tuple(f"L{li}.{nd[1]}" + "".join(f"[{d}={values[d]}]" for d in dd) for li, dd in parts)
+                values[nd[1]] = vals if kind == "additive" else vals[0]
+            else:
+                values[nd[1]] = f"default.{nd[1]}" + seen
             continue
         i = nd[1]
         for p in specs[i]["props"]:
@@ -196,7 +242,9 @@ def harness_for(struct, check_oracle=True):
     perms = list(itertools.permutations(range(n)))
 
     def h(ctx):
-        cls = struct.setdefault("_cls", None) or make_class(struct["defaults"], struct["finals"], struct["tag"])
+        cls = struct.setdefault("_cls", None) or (
+            make_class_chain(struct["levels"], struct["tag"]) if struct.get("levels")
+            else make_class(struct["defaults"], struct["finals"], struct["tag"]))
         struct["_cls"] = cls
         prios = {}
         for i, s in enumerate(struct["specs"]):
@@ -260,6 +308,19 @@ def hand_structs():
     S.append(dict(tag="modread", specs=[dict(props=["pa"], deps=[]),
                                         dict(props=["pa"], deps=[], modifying=True, modifiable=["pa"])],
                   defaults={"pa": [], "pb": ["pa"], "pc": ["pb"]}, finals=set()))
+    # a tie on pa (s0, s1) and a later-written specifier overriding pb: ambiguity must not be forgotten
+    S.append(dict(tag="tie-and-override", specs=[dict(props=["pa", "pb"], deps=[]), dict(props=["pa"], deps=[]), dict(props=["pb"], deps=[])],
+                  defaults={"pa": [], "pb": [], "pc": []}, finals=set()))
+    S.append(dict(tag="tie-and-override2", specs=[dict(props=["pb"], deps=[]), dict(props=["pa", "pc"], deps=[]), dict(props=["pa", "pb"], deps=[]),
+                                                  dict(props=["pc"], deps=[])],
+                  defaults={"pa": [], "pb": [], "pc": []}, finals=set()))
+    # class-level merging of defaults: additive over plain with a self-dependency, plain over additive, ...
+    S.append(dict(tag="additive-over-plain", specs=[dict(props=["pc"], deps=[])], defaults={}, finals=set(),
+                  levels=[{"pa": (["pb"], False), "pb": ([], False)}, {"pa": ([], True), "pc": ([], False)}]))
+    S.append(dict(tag="additive-chain", specs=[dict(props=["pb"], deps=[])], defaults={}, finals=set(),
+                  levels=[{"pa": (["pc"], True), "pc": ([], False)}, {"pa": (["pb"], True), "pb": ([], False)}, {"pa": ([], True)}]))
+    S.append(dict(tag="plain-over-additive", specs=[dict(props=["pb"], deps=["pa"])], defaults={}, finals=set(),
+                  levels=[{"pa": (["pc"], True), "pc": ([], False), "pb": ([], False)}, {"pa": ([], False)}]))
     return S
 
 
